@@ -104,3 +104,9 @@ claim("C20", "other",
       "Decides that no index/slice/make on data derived from a server reply can panic in the client (callers and background goroutines), that allocations in the reply decoders are bounded by the input, that every reply-type switch ends in an error and that decoders only return errors. Level 'other': it covers panics and allocation bounds of decoding, not the claim that the Client stays usable afterwards.",
       "Trusted base as C08; binary.Read for StatVFS.",
       "DESIGN.md section 4, C20")
+
+claim("C07", "other",
+      "path rules on the receive loops and shutdown sequence (reachability avoiding barriers, dominance), who-may-call, and the bounds prover on request-derived data in the handling cones",
+      "Decides for both servers, on every path: a packet that failed to decode (or a nil packet) is never dispatched, the connection is closed and the error reported; the shutdown sequence close → join → sweep runs on every exit, the dispatcher closes both worker channels, responses are queued before the barrier counter is released; no panic-capable instruction on request-derived data in the handling cones is left undischarged (attribute-blob assertions, allocator page slicing, packet-manager queues); decoded attributes are dereferenced only after a successful decode (one known finding in the in-package example handler).",
+      "Assumes user handlers do not panic and honour the io.ReaderAt/WriterAt count contract; maxTxPacket < 2^31. 'Emitted responses are a prefix of the correct ones' is not decided.",
+      "DESIGN.md section 4, C07")
